@@ -92,7 +92,7 @@ def run(chk):
     have_driver = os.path.exists(DRV)
     if not proved and not have_driver:
         return
-    nseeds = 16 if chk.tier == "quick" else 60
+    nseeds = 16 if chk.tier == "quick" else 150
     tier = "quick" if chk.tier == "quick" else "thorough"
     hist = {}
     nontriv = set()
